@@ -226,8 +226,17 @@ impl<'a> Rt<'a> {
     fn cancel_tasks(&mut self) {
         let (tokio, local) = init(&mut self.config);
 
-        _ = mem::replace(&mut self.tokio, tokio);
-        drop(mem::replace(&mut self.local, local));
+        let old_tokio = mem::replace(&mut self.tokio, tokio);
+        let old_local = mem::replace(&mut self.local, local);
+
+        // The software's tasks live in the `LocalSet`. Drop them while the
+        // old runtime is still entered, so destructors read its paused
+        // (virtual) clock rather than falling back to the wall clock.
+        {
+            let _guard = old_tokio.enter();
+            drop(old_local);
+        }
+        drop(old_tokio);
     }
 }
 
